@@ -233,41 +233,44 @@ Definition inline_root_type (S : schema) (tcond root : string) : option string :
 Definition fnode_of (al : option string) (n : string) (c : bool) (ms : list string) (sub : option (list sel))
   : fnode := {| fn_alias := al; fn_name := n; fn_cond := c; fn_mixins := ms; fn_sub := sub |}.
 
-(* one selection of the set; [rec] resolves a nested selection set (fragment body) against a root *)
-Definition resolve_step (rec : list sel -> string -> res (list fnode * list string))
-           (S : schema) (frs : list fragdef) (root : string)
+(* one selection of the set; [rec under' sels' root'] resolves a nested selection set (fragment body).
+   under: the selection set lies inside a fragment carrying @skip/@include; fields collected there come
+   out conditional, and a fragment spread there is never used as a mixin base class (its fields would
+   stay required) but unpacked *)
+Definition resolve_step (rec : bool -> list sel -> string -> res (list fnode * list string))
+           (S : schema) (frs : list fragdef) (root : string) (under : bool)
            (acc : res (list fnode * list string)) (s : sel) : res (list fnode * list string) :=
   p <- acc ;;
   let '(fields, mixins) := p in
   match s with
-  | SField al n c ms sub => Ok (fields ++ [fnode_of al n c ms sub], mixins)
-  | SSpread n _ =>
+  | SField al n c ms sub => Ok (fields ++ [fnode_of al n (under || c) ms sub], mixins)
+  | SSpread n c =>
       match lookup_frag frs n with
       | None => Err "KeyError: fragment"
       | Some f =>
           match lookup_type S root, lookup_type S (fr_on f) with
           | Some _, Some fd =>
-              if negb (unpack_fragment S f (Some root)) then Ok (fields, mixins ++ [n])
+              if negb (under || c) && negb (unpack_fragment S f (Some root)) then Ok (fields, mixins ++ [n])
               else if String.eqb (fr_on f) root || (is_abstract fd && is_sub_type S (fr_on f) root)
-              then q <- rec (fr_sel f) root ;;
+              then q <- rec (under || c) (fr_sel f) root ;;
                    Ok (fields ++ fst q, mixins ++ snd q)
               else Ok (fields, mixins)
           | _, _ => Err "KeyError: type"
           end
       end
-  | SInline tc _ sub =>
+  | SInline tc c sub =>
       (* a missing type condition means the enclosing type *)
       match inline_root_type S (match tc with Some tc => tc | None => root end) root with
-      | Some r => q <- rec sub r ;; Ok (fields ++ fst q, mixins ++ snd q)
+      | Some r => q <- rec (under || c) sub r ;; Ok (fields ++ fst q, mixins ++ snd q)
       | None => Ok (fields, mixins)
       end
   end.
 
-Fixpoint resolve (fuel : nat) (S : schema) (frs : list fragdef) (sels : list sel) (root : string)
-  : res (list fnode * list string) :=
+Fixpoint resolve (fuel : nat) (S : schema) (frs : list fragdef) (under : bool) (sels : list sel)
+         (root : string) : res (list fnode * list string) :=
   match fuel with
   | O => Err "fuel"
-  | S fuel' => fold_left (resolve_step (resolve fuel' S frs) S frs root) sels (Ok ([], []))
+  | S fuel' => fold_left (resolve_step (resolve fuel' S frs) S frs root under) sels (Ok ([], []))
   end.
 
 (* _get_fragment_bases: the fragments a fragment class inherits from, transitively *)
@@ -282,7 +285,7 @@ Fixpoint fragment_bases (fuel : nat) (S : schema) (frs : list fragdef) (name : s
       match lookup_frag frs name with
       | None => Err "KeyError: fragment"
       | Some f =>
-          q <- resolve fuel' S frs (fr_sel f) (fr_on f) ;;
+          q <- resolve fuel' S frs false (fr_sel f) (fr_on f) ;;
           fold_left (append_bases (fragment_bases fuel' S frs)) (snd q) (Ok (snd q))
       end
   end.
@@ -422,7 +425,7 @@ Definition parse_body (rec : ptd_fun) (C : cfg) (S : schema) (frs : list fragdef
   if mem class_name pub then Ok ([], pub, true)
   else
     let pub := pub ++ [class_name] in
-    rf <- resolve fuel' S frs sels type_name ;;
+    rf <- resolve fuel' S frs false sels type_name ;;
     let '(fields0, mixins) := rf in
     let fields := add_typename_field add_typename fields0 in
     kept <- remove_inherited fuel' S frs mixins ;;
